@@ -11,7 +11,7 @@ L=/tmp/mc_$(basename $(dirname $wt))_$(basename $wt)
 git checkout -q -- . ; 
 M=$wt/MUTANTS
 demo=$M/m$k.demo_test.go
-dir=$(grep -o -m1 -E '(actions|services|filter|faults|internal/[a-z]+|grpc|ent|controllers|parse|db)(/[a-z-]+)*' $demo | head -1)
+dir=$(grep -o -m1 -E '(internal/[a-z]+|actions|services|filter|faults|grpc|ent|controllers|parse|db)/' $demo | head -1 | sed 's|/$||')
 cmd=$(python3 -c "import json;print(json.load(open('$M/m$k.meta.json'))['demo_cmd'])")
 name=$(grep -o -E 'func (Test[A-Za-z0-9_]+)' $demo | head -1 | cut -d' ' -f2)
 echo "demo dir=$dir test=$name"
